@@ -13,6 +13,7 @@ package kms
 //@   modifies kmstried(this)
 //@   ensures kmstried(this) == old(kmstried(this)) + 1
 //@   ensures err == nil ==> result != nil
+//@   ghost ensures err == nil ==> plain(arr(result.Plaintext))
 
 //@ func (keys).get
 //@   names k, region
@@ -27,7 +28,7 @@ package kms
 
 //@ func (*AWSKMS).DecryptKey
 //@   names m, ctx, keyBytes
-//@   facet C17, C10
+//@   facet C17, C10, C03
 //@   ensures [C10:kms-data-key-plaintext-wiped] retis(DecryptWithContext, 1, 1, nil) ==> (forall i int :: 0 <= i && i < len(ret(DecryptWithContext, 1, 0).Plaintext) ==> ret(DecryptWithContext, 1, 0).Plaintext[i] == 0)
 //@   safety C17
 //@   opt no-frame
